@@ -237,6 +237,17 @@ def _all_modes(chk):
             ) and any(p.atom.kind == "param" for p in ps)
             chk.check(ok, "SPECIAL.all_modes", fn, r, why="n_modes='all' must resolve to min(X.shape), the rank of the data")
             return
+    # the value may be bound under the guard and returned at the join point (`if ... != "all": raise; v = min(...); return v`)
+    rets = {norm(r.value) for r in returns_of(fn) if r.value is not None}
+    for st in ff.statements():
+        if isinstance(st, ast.Assign) and len(st.targets) == 1 and norm(st.targets[0]) in rets and any(is_all(t, pol) for t, pol, _ in effective_guards(ff, st)):
+            ps = ff.paths(st.value, spine_only=True)
+            ok = bool(ps) and all(
+                p.atom.kind == "param" and [(o.kind, o.name) for o in p.ops] == [("attr", "shape"), ("arg", "min")]
+                for p in ps if p.atom.kind != "call"
+            ) and any(p.atom.kind == "param" for p in ps)
+            chk.check(ok, "SPECIAL.all_modes", fn, st, why="n_modes='all' must resolve to min(X.shape), the rank of the data")
+            return
     raise AnalysisError("PCA._get_n_modes: branch for n_modes == 'all' not found (anchor vanished)")
 
 
